@@ -40,15 +40,35 @@ def check(prog, rep, rule):
                 pol = [a for a in args if 'Policy' in f.type(a)]
                 if len(pol) == 2 and all(any(x['k'] == 'DeclRefExpr' and x.get('n') == 'ThrowError' and x.get('dk') == 'EnumConstant' for x in f.walk(a)) for a in pol):
                     never_false.add(n['i'])
+        # ... also when the call is wrapped in a local closure `[&]{ return ConvertByPolicy(..., ThrowError, ThrowError); }` or held in a
+        # named bool
+        from bsv.expr import resolve as _resolve
+        from bsv.facts import strip as _strip
+
+        def is_never_false(g, e, depth=0):
+            e = _resolve(g, e) if e is not None else None
+            if e is None:
+                return False
+            if e['i'] in never_false and g is f:
+                return True
+            if e['k'] == 'CallExpr' and (g.callee(e) or {}).get('n') == 'ConvertByPolicy':
+                pol = [a for a in e.get('c', [])[1:] if 'Policy' in g.type(a)]
+                return len(pol) == 2 and all(any(x['k'] == 'DeclRefExpr' and x.get('n') == 'ThrowError' and x.get('dk') == 'EnumConstant'
+                                                 for x in g.walk(a)) for a in pol)
+            if e['k'] in ('CXXOperatorCallExpr', 'CallExpr', 'CXXMemberCallExpr') and depth < 2:
+                c = g.callee(e) or {}
+                h = prog.funcs.get(c.get('id'))
+                if h is not None and h.body is not None and (c.get('kind') == 'lambda' or h.sym.get('kind') == 'lambda'):
+                    rets = [x for x in h.walk() if x['k'] == 'ReturnStmt']
+                    return bool(rets) and all(x.get('c') and is_never_false(h, x['c'][0], depth + 1) for x in rets)
+            return False
         for path, dec, kind in paths:
             if kind != 'return':
                 continue
             infeasible = False
             for cid, idx, tk in dec:
                 c = f.node(cid) if isinstance(cid, int) else None
-                from bsv.facts import strip as _strip
-                e = _strip(c) if c is not None else None
-                if e is not None and e['i'] in never_false and idx == 1:
+                if c is not None and idx == 1 and is_never_false(f, c):
                     infeasible = True
             if infeasible:
                 continue
